@@ -147,10 +147,14 @@ def build_loss(case, rng):
                      reads=("theta", "phi"))
         pr.make_data(B)
         loss = pr.loss()
-        tabs = {"phi": rng.uniform(0.1, 0.5, (B, 1))} if want_p else None
+        # two batched keys, handed over in reverse-sorted insertion order through the public batch constructor
+        tabs = {"theta": rng.uniform(0.5, 1.5, (B, 1)), "phi": rng.uniform(0.1, 0.5, (B, 1))} if want_p else None
         # observation batches carry observed equation parameters in half of the cases
         obs_eq = {"theta": rng.uniform(0.5, 1.5, (B, 1))} if (want_o and (fl == "both" or kind != "statio")) else None
-        return loss, pr.params, pr.batch(param_batch=tabs, obs_eq=obs_eq)
+        if obs_eq is not None and tabs is not None:
+            tabs.pop("theta")  # theta is observed in this flavour
+            tabs["kappa"] = -rng.uniform(0.5, 1.5, (B, 1))
+        return loss, pr.params, pr.batch(param_batch=tabs, obs_eq=obs_eq, direct=True)
     from .. import eqs
     D = {"ode": 1, "statio": d, "nonstatio": d + 1}[kind]
     eqt = {"ode": "ODE", "statio": "statio_PDE", "nonstatio": "nonstatio_PDE"}[kind]
